@@ -231,7 +231,7 @@ pub fn run_one(def: &PropDef, tier: Tier, seed: u64, index: u64, out: &Path, rep
     if let Some((loc, msg)) = panics.first() {
         let in_harness = loc.starts_with("src/") || loc.contains("/verif/sim/");
         let v = Violation::new(
-            def.panic_prop,
+            def.id,
             "panic",
             loc.clone(),
             format!("panic at {loc}: {msg}"),
@@ -247,7 +247,7 @@ pub fn run_one(def: &PropDef, tier: Tier, seed: u64, index: u64, out: &Path, rep
             .map(|(_, t)| t.split(':').next().unwrap_or("").to_string())
             .collect();
         let v = Violation::new(
-            "C09",
+            def.id,
             if leaked.is_empty() { "closed_foreign_fd" } else { "fd_leak" },
             format!("{}+{}", leaked.len(), closed.len()),
             format!("fd table changed over the run: leaked {leaked:?} kinds {kinds:?}; closed {closed:?}"),
